@@ -7,6 +7,8 @@ transcendental/draw argument dimensionless, every comparison between like units 
 words do not depend on location/scale); (2) the sample has the unit the statement demands (Point, L, or exp(Point));
 (3) `from_zscore(z)` is typed Point (exp(Point) for LogNormal) with std_dev : L/Z and z : Z.
 """
+CONFIGS_THOROUGH = ["serde", "release"]
+
 from absint import En, Rf, Top
 from facts import span_str
 import rules_c04
@@ -135,3 +137,38 @@ def run(chk, F, tier):
             else:
                 chk.ok("zscore", key + " : %r with std_dev : L/Z, z : Z" % (rv,), nontrivial=True)
     chk.floor("sampler / from_zscore typings", n, 30)
+    # ---- the sign of the scale: Normal documents a negative std_dev as allowed, and positive-scaling units cannot see an `abs`.
+    # Interval identity on sign cells (numeric domain): from_zscore(z) must be exactly mean + std_dev * z, also for std_dev < 0.
+    import values as V
+    from absint import Interp
+    from axioms import Axioms
+    from values import Fl
+    axn = Axioms(F)
+    cells = {"mean": [Fl.rng(2, False, 3, False), Fl.rng(-3, False, -2, False)], "sd": [Fl.rng(5, False, 6, False), Fl.rng(-6, False, -5, False)],
+             "z": [Fl.rng(1, False, 2, False), Fl.rng(-2, False, -1, False)]}
+    ns = 0
+    for bits in (32, 64):
+        cinst = rules_c04.find_insts(F, "normal::Normal::<F>::new", bits)
+        finst = rules_c04.find_insts(F, "normal::Normal::<F>::from_zscore", bits)
+        if not cinst or not finst:
+            chk.violation("zscore-sign", "anchor:f%d" % bits, "Normal::new / from_zscore instance not found")
+            continue
+        for m in cells["mean"]:
+            for sd in cells["sd"]:
+                for z in cells["z"]:
+                    ip = Interp(F, axn)
+                    rv, st = ip.run_root(cinst, [m, sd])
+                    if not (isinstance(rv, En) and 0 in rv.variants):
+                        chk.violation("zscore-sign", "f%d:new(%r,%r)" % (bits, m, sd), "Normal::new rejects a finite (mean, std_dev) pair")
+                        continue
+                    ip2 = Interp(F, axn)
+                    got, _ = ip2.run_root(finst, [Rf(None, rv.variants[0][0], False), z])
+                    want = V.fl_add(m, V.fl_mul(sd, z))
+                    ns += 1
+                    key = "f%d mean=%r std_dev=%r z=%r" % (bits, m, sd, z)
+                    if got == want:
+                        chk.ok("zscore-sign", key + " -> " + repr(got), nontrivial=(ns <= 8))
+                    else:
+                        chk.violation("zscore-sign", key, "Normal::new(mean, std_dev).from_zscore(z) = %r but mean + std_dev * z = %r (%s): the sign or value of a "
+                                      "parameter is not preserved" % (got, want, key), where=span_str(finst.get("span")))
+    chk.floor("from_zscore sign cases", ns, 16)
